@@ -154,11 +154,17 @@ theorem killLineK_ok (b : Buf) (h : WF b) (n : Int) : KillOK b (killLineK b n) :
 
 theorem killWordK_ok (rs : Char → Bool) (b : Buf) (h : WF b) (n : Int) : KillOK b (killWordK rs b n) := by
   unfold killWordK
-  split
-  · split
-    · exact ofDel_delete_ok b h _ _
-    · exact nothing_ok b h
-  · exact nothing_ok b h
+  generalize Gen.C09.killWordNegFixed = fl
+  cases findNextWordEnding rs b n with
+  | none => exact nothing_ok b h
+  | some pos =>
+    simp only
+    by_cases h0 : pos ≠ 0
+    · rw [if_pos h0]
+      by_cases h1 : fl = true ∧ pos < 0
+      · rw [if_pos h1]; exact ofDel_deleteBefore_ok b h _ _
+      · rw [if_neg h1]; exact ofDel_delete_ok b h _ _
+    · rw [if_neg h0]; exact nothing_ok b h
 
 theorem ruboutK_ok (rs : Char → Bool) (b : Buf) (h : WF b) (n : Int) (W : Bool) :
     KillOK b (ruboutK rs b n W) := by
